@@ -135,7 +135,7 @@ def check_frames(ctx, rep, name, direction, frames):
                 fu = uid % 246 + 1
                 foreign = framelib.real_build(name, direction, {'t': 'writeRegister', 'address': 2, 'value': 3} if direction == 'req'
                                               else {'t': 'writeRegister', 'address': 2, 'value': 3}, fu, 7, 0)
-                if isinstance(foreign, dict) or (name == 'binary' and any(b in (0x7B, 0x7D) for b in foreign[1:-1])):
+                if isinstance(foreign, dict) or (name == 'binary' and framelib.has_delim(foreign)):
                     ctxt, chunks = 'alone', [bad]
                 else:
                     chunks = [list(foreign) + bad]
